@@ -311,7 +311,7 @@ class Dying(BacktrackSolver):
         super().optimize_and_queue(v, f, idx, self._q(q))
 
 import time
-mode, dead_at, nsol, delays = %(mode)r, %(dead_at)r, %(nsol)r, %(delays)r
+mode, dead_at, nsol, delays, prior = %(mode)r, %(dead_at)r, %(nsol)r, %(delays)r, %(prior)r
 solvers = []
 for w, k in enumerate(nsol):
     # worker w enumerates k solutions: one variable with k values (k = 0: an inconsistent constraint)
@@ -320,10 +320,16 @@ for w, k in enumerate(nsol):
     if k == 0:
         pb.add_propagator(([0], ALG_AFFINE_LEQ, [1, -1000]))
     s = Dying(pb, log_level="CRITICAL")
-    s.die_at = dead_at[w] if dead_at[w] <= k else None
-    s.delay = delays[w]
+    s.wanted_die_at = dead_at[w] if dead_at[w] <= k else None
+    s.wanted_delay = delays[w]
+    s.die_at, s.delay = None, 0.0
     solvers.append(s)
 mp = MultiprocessingSolver(solvers, log_level="CRITICAL")
+if prior:
+    # a first, healthy call on the same MultiprocessingSolver object
+    print("FIRST", sorted(x.tolist() for x in mp.solve()) if prior == "solve" else mp.minimize(0))
+for s in solvers:
+    s.die_at, s.delay = s.wanted_die_at, s.wanted_delay
 try:
     if mode == "solve":
         print("RESULT", sorted(x.tolist() for x in mp.solve()))
@@ -381,12 +387,12 @@ def replay_reducer(r):
     # a healthy run in which the first worker finishes at once and the others stay silent for several queue time-outs
     delays = [0.0] + [3.5] * (nw - 1) if healthy_kind else [0.0] * nw
     dead_at = [10**6] * nw if healthy_kind else r["dead_at"]
-    code = REDUCER_SCRIPT % dict(repo=os.environ.get("NUSYM_REPO", "/repo"), mode=r["mode"], dead_at=dead_at, nsol=[max(0, n) for n in r["nsol"]], delays=delays)
+    code = REDUCER_SCRIPT % dict(repo=os.environ.get("NUSYM_REPO", "/repo"), mode=r["mode"], dead_at=dead_at, nsol=[max(0, n) for n in r["nsol"]], delays=delays, prior=r.get("prior"))
     import signal
 
     proc = subprocess.Popen([sys.executable, "-c", code], stdout=subprocess.PIPE, stderr=subprocess.STDOUT, text=True, start_new_session=True)
     try:
-        out, _ = proc.communicate(timeout=float(os.environ.get("NUSYM_WATCHDOG_S", "20")))
+        out, _ = proc.communicate(timeout=float(os.environ.get("NUSYM_WATCHDOG_S", "20")) + (20 if r.get("prior") else 0))
     except subprocess.TimeoutExpired:
         os.killpg(proc.pid, signal.SIGKILL)
         proc.wait()
@@ -520,6 +526,8 @@ def real_history(pb, kw, history):
             CA.register_consistency_algorithm(CA.CONSISTENCY_ALG_FCTS[0])
         elif h == "split":
             pb.split(2, 0)
+        elif h == "then_split_part0":
+            pass
         elif h == "init_twice":
             pb.init()
         elif h == "sibling_problem":
@@ -545,6 +553,8 @@ def real_history(pb, kw, history):
 def run_real(w, limit=10000):
     pb, kw, BacktrackSolver = build_real(w)
     real_history(pb, kw, w.get("history"))
+    if "then_split_part0" in (w.get("history") or []):
+        pb = pb.split(2, 0)[0]
     s = BacktrackSolver(pb, **kw)
     mode = w.get("mode", "solve").replace("_q", "")
     if mode == "solve":
@@ -926,7 +936,7 @@ def replay_solve(r):  # noqa: F811
     kind = r["kind"]
     if kind.startswith("different-") and r.get("history"):
         # two fresh interpreters: one solves at once, the other goes through the history first
-        a = _run_real_watchdog(dict(r, history=[]), 120)
+        a = _run_real_watchdog(dict(r, history=[h for h in r["history"] if h == "then_split_part0"]), 120)
         b = _run_real_watchdog(r, 120)
         return a != b, f"fresh process: {str(a)[:300]} ... after history {r['history']}: {str(b)[:300]}"
     if r.get("prop") == "C08" and kind in ("pass-grew-or-emptied-a-domain", "solved-status-mismatch", "enabled-propagator-fails-at-exit", "not-a-fixpoint-at-exit"):
@@ -1129,6 +1139,20 @@ def replay_models(r):
         sol = BacktrackSolver(pb, log_level="CRITICAL").maximize(pb.weight)
         got = None if sol is None else int(sol[pb.weight])
         return got != best, f"weights={w} volumes={v} capacity={c}: real solver optimum {got}, definition {best}"
+    if r.get("model") == "latin_square_givens":
+        # symbolic-givens counterexample: the real solver's solutions on that instance vs brute force over the definition
+        from nucs.problems.latin_square_problem import LatinSquareProblem
+        from nucs.solvers.backtrack_solver import BacktrackSolver
+
+        colors, givens, n = r["colors"], r["givens"], r["size"]
+        want = set()
+        for sq in itertools.product(colors, repeat=n * n):
+            rows = [sq[i * n : (i + 1) * n] for i in range(n)]
+            if all(len(set(x)) == n for x in rows) and all(len({rows[i][j] for i in range(n)}) == n for j in range(n)):
+                if all(givens[i][j] not in colors or rows[i][j] == givens[i][j] for i in range(n) for j in range(n)):
+                    want.add(tuple(sq))
+        got = [tuple(int(v) for v in s_) for s_ in BacktrackSolver(LatinSquareProblem(list(colors), [list(x) for x in givens]), log_level="CRITICAL").solve()]
+        return sorted(got) != sorted(want), f"colors={colors} givens={givens}: real solver {len(got)} squares, definition {len(want)}"
     bad = []
     for inst in r["instances"]:
         exp = inst.get("count", inst.get("optimum"))
